@@ -371,12 +371,13 @@ def _run_micro3(ctx, quick, verbose=False):
     probes, tags = gen_probes(ctx, drv, quick)
     models = model_lines(drv, probes)
     # a contended probe costs two short waits (B waits for a lock the held A owns): bounded number per run
-    cap, kept = (110 if quick else 4000), []
+    cap, kept = ({"aimed-contended": 70, "other": 40} if quick else {"aimed-contended": 1200, "other": 800}), []
     for p, m in zip(probes, models):
         if (m["c1"] or m["c2"]) and tags[p] != "corpus":
-            if cap <= 0:
+            cls = "aimed-contended" if tags[p] == "aimed-contended" else "other"
+            if cap[cls] <= 0:
                 continue
-            cap -= 1
+            cap[cls] -= 1
         kept.append((p, m))
     probes, models = [p for p, _ in kept], [m for _, m in kept]
     reals = run_real(exe, probes, models, 40.0)
